@@ -48,6 +48,8 @@ FLOORS = {"quick": {"compared": 4000, "compared_ok": 1200,
           "thorough": {"compared": 300000, "compared_ok": 100000,
                        "compared_reject": 100000, "unbalanced": 40000,
                        "define_texts": 40000, "import_texts": 6000}}
+HOOK_FLOORS = {"quick": {"reused_loader_aborted_inside_fragment": 40},
+               "thorough": {"reused_loader_aborted_inside_fragment": 2000}}
 N_MODELS = {"quick": 700, "thorough": 20000}
 TEXTS = {"quick": 8, "thorough": 20}
 N_DEFINE = {"quick": 1500, "thorough": 80000}
@@ -71,7 +73,41 @@ def load_path(schema, path):
     return ("ok", outcome.canon_value(config))
 
 
-def compare(ctx, schema, corpus, text, case_extra, rng, dirpath, tag=""):
+def reused_loader_load(ctx, loader, layout, main, dirpath, rng, poison):
+    """Load the layout through a ConfigLoader object that has served every
+    earlier case of this shard.  With *poison*, the same loader first reads
+    a copy of the layout in which a fragment starts with a section whose
+    datatype divides by zero: that error leaves the loader while the
+    fragment is being read, and nothing of it may remain afterwards."""
+    import ZConfig
+    if poison and layout.cuts:
+        frag = layout.cuts[0]["file"]
+        fp = os.path.join(dirpath, *frag.split("/"))
+        with open(fp) as f:
+            good = f.read()
+        with open(fp, "w") as f:
+            f.write("<sec>\nboom 1/0\n</sec>\n" + good)
+        try:
+            loader.loadURL(main)
+            ended = "no error"
+        except ZeroDivisionError:
+            ended = "ZeroDivisionError"
+            ctx.res.hook("reused_loader_aborted_inside_fragment")
+        except Exception as e:  # noqa
+            ended = type(e).__name__
+        ctx.res.count("poison_ended_" + ended)
+        with open(fp, "w") as f:
+            f.write(good)
+    try:
+        config, handler = loader.loadURL(main)
+    except Exception as e:  # noqa
+        fam, tn, lineno, url = outcome.classify_exception(e)
+        return ("reject", fam, tn, lineno, url, str(e)[:200])
+    return ("ok", outcome.canon_value(config))
+
+
+def compare(ctx, schema, corpus, text, case_extra, rng, dirpath, tag="",
+            loader=None):
     res = ctx.res
     layout = cuts.cut_text(rng, text)
     if layout is None:
@@ -80,6 +116,25 @@ def compare(ctx, schema, corpus, text, case_extra, rng, dirpath, tag=""):
     res.evaluations += 1
     shutil.rmtree(dirpath, ignore_errors=True)
     main = layout.write(dirpath)
+    if loader is not None:
+        poison = rng.random() < 0.4
+        o_re = reused_loader_load(ctx, loader, layout, main, dirpath, rng,
+                                  poison)
+        o_ref = outcome.load_text(schema, text)
+        res.count("reused_loader_compared")
+        if key(o_ref) != key(o_re):
+            res.violate("reused-loader-differs-from-inlined",
+                        dict(case_extra, text=text, files=layout.texts(),
+                             corpus=corpus, poison=poison),
+                        list(o_ref[:2]) if o_ref[0] == "ok"
+                        else list(o_ref[:6]),
+                        list(o_re[:2]) if o_re[0] == "ok"
+                        else list(o_re[:6]),
+                        detail="one ConfigLoader object for every case%s; "
+                        "files=%r" % (" (after a load that a datatype "
+                                      "aborted inside a fragment)"
+                                      if poison else "", layout.texts()),
+                        vsig="reuse|%s|%s|%s" % (poison, o_ref[0], o_re[0]))
     linked = rng.random() < 0.15
     if linked:
         # the outer file really lives elsewhere; references in it are
@@ -222,6 +277,7 @@ def define_text(rng):
 
 DEFINE_SCHEMA = """<schema>
   <sectiontype name='sec'>
+    <key name='boom' datatype='zcverif_dt.boom_div'/>
     <multikey name='k' attribute='k'/>
     <multisection type='sec' name='*' attribute='subs'/>
   </sectiontype>
@@ -272,10 +328,12 @@ def run_shard(ctx):
     finally:
         space.close()
     dschema = cc.load_schema(DEFINE_SCHEMA)
+    from ZConfig.loader import ConfigLoader
+    long_lived = ConfigLoader(dschema)
     for i in range(N_DEFINE[ctx.tier] // ctx.nshards):
         ctx.res.count("define_texts")
         compare(ctx, dschema, "defines", define_text(rng),
-                {"schema": "defines"}, rng, dirpath)
+                {"schema": "defines"}, rng, dirpath, loader=long_lived)
 
 
 def replay_imports(ctx, case):
